@@ -13,7 +13,7 @@ def run(rep):
     from . import control
     control.body_deductive(rep)
     q = rep.tier == 'quick'
-    fw.standin(rep, 's_c09.py', ['run', rep.seed, 500], '= and \\= as goals (API and compiled) vs the engine\'s unify on every pair of term shapes, '
+    fw.standin(rep, 's_c09.py', ['run', rep.seed, 520], '= and \\= as goals (API and compiled) vs the engine\'s unify on every pair of term shapes, '
                'including pairs whose unifier is cyclic', 'all 400 ordered pairs of 20 term shapes; 7 findall templates x API/compiled')
     fw.standin(rep, 'difftest.py', ['run', 'F3', rep.seed, 6000 if q else 40000],
                'meta-call programs (inline / run-time bound / atom goals, extra arguments, 0-1-many answers) vs reference interpreter',
